@@ -130,6 +130,7 @@ def h_offsets(ctx):
     tname = ctx.pick("trigger", names)
     d = _proj()
     nprep = ctx.pick("prepended_lines", (0, 1, 3, 6) if _TIER["t"] == "quick" else (0, 1, 2, 3, 4, 6, 9, 15))
+    pre_style = ctx.pick("prepended_style", ("comment+blank", "blank-only")) if nprep else "comment+blank"
     wrapped = ctx.flag("wrapped_one_level_deeper")
     trailing_nl = ctx.flag("trailing_newline")
     crlf = False
@@ -151,7 +152,7 @@ def h_offsets(ctx):
             body = WRAP[lang](body)
             off += WRAP_OFFSET[lang]
         if n == main:
-            pre = [(cm + " filler comment %d" % i) if i % 2 == 0 else "" for i in range(nprep)]
+            pre = [(cm + " filler comment %d" % i) if (i % 2 == 0 and pre_style == "comment+blank") else "" for i in range(nprep)]
             body = pre + body
             off += nprep
             expected_line = vline + off
